@@ -33,6 +33,7 @@ def plan(ctx):
     t = ctx.thorough
     cases = [("serial", i) for i in range(27 if t else 9)]
     cases += [("multi", i) for i in range(9 if t else 2)]
+    cases += [("diskfull", i) for i in range(6 if t else 2)]
     return cases
 
 
@@ -237,12 +238,73 @@ def config_case(ctx, g, kind):
                 one_run(*args, fault, ref, seed, seed2, decoy, inp0)
 
 
+def diskfull_case(ctx, g):
+    """a REAL operating-system fault: the directory the cache file is written to is a 48 kB tmpfs, so writing the library
+    runs out of space (ENOSPC) inside HDF5.  The failure must reach the caller and no cache file may stay behind; a normal
+    return is acceptable only with the correct values.  Needs the right to mount a tmpfs (skipped and counted otherwise).
+    The call runs in a child process (harness/diskfull_child.py): HDF5 may crash the interpreter after ENOSPC."""
+    import json
+    import subprocess
+    import sys
+    import tempfile
+    import core
+    rel = "a failing cache write (disk full) reaches the caller; no temporary HDF5 file is left behind"
+    mnt = tempfile.mkdtemp(prefix="verif_c13_full_")
+    r = subprocess.run(["mount", "-t", "tmpfs", "-o", "size=48k", "tmpfs", mnt], capture_output=True, text=True)
+    if r.returncode != 0:
+        ctx.count("diskfull: tmpfs cannot be mounted here (relation not exercised)")
+        os.rmdir(mnt)
+        return
+    try:
+        child = os.path.join(os.path.dirname(os.path.dirname(os.path.abspath(__file__))), "diskfull_child.py")
+        pr_ = subprocess.run([sys.executable, child, mnt, str(g["index"]), str(ctx.seed)], capture_output=True, text=True, timeout=900,
+                             env=dict(os.environ, VERIF_REPO=core.REPO))
+        line = [l for l in pr_.stdout.splitlines() if l.startswith("RESULT ")]
+        if not line:
+            ctx.count("diskfull: child process died before reporting (interpreter crash inside HDF5)")
+            ctx.evaluated(rel, None)
+            ctx.violation(rel, g, dict(case=g["index"], cache_dir="48 kB tmpfs"), dict(child_exit=pr_.returncode, stderr=pr_.stderr[-300:]), None,
+                          "a failing cache write must surface as an exception in the caller (the process crashed instead)",
+                          tags=dict(relation="diskfull", what="crash"))
+            return
+        res = json.loads(line[0][7:])
+        inp = dict(entry=res["entry"], library_rows=res["N"], ln_prior_column=res["ln_prior"], cache_dir="48 kB tmpfs",
+                   problem=dict(p=res["p"], q=res["q"]))
+        ctx.evaluated(rel, ("diskfull", g["index"]))
+        ctx.count(f"diskfull:{res['entry']}")
+        if res["left"]:
+            ctx.violation(rel, g, inp, dict(files_left=res["left"], raised=res["raised"]), None,
+                          "no temporary HDF5 file may be left behind after a failing cache write", tags=dict(relation="diskfull", what="leak"))
+        elif res["raised"] is None:
+            if not res["values_ok"]:
+                ctx.violation(rel, g, inp, dict(returned_normally=True, non_finite_values=res["non_finite"]),
+                              dict(expected="an exception (the cache file does not fit into the directory), or the values of the in-memory evaluation"),
+                              "the I/O failure of the cache write must reach the caller: the call returned normally with values read "
+                              "back from a truncated cache file", tags=dict(relation="diskfull", what="swallowed"))
+        else:
+            name, msg, io_like = res["raised"]
+            ctx.count(f"diskfull: raised {name}")
+            if not io_like or "good samples" in msg or "reshape" in msg:
+                ctx.violation(rel, g, inp, dict(raised=f"{name}: {msg[:160]}"), None,
+                              "the I/O failure of the cache write must reach the caller: the write went unnoticed and the call "
+                              "failed later on the truncated cache with an unrelated error", tags=dict(relation="diskfull", what="late"))
+    finally:
+        subprocess.run(["umount", mnt], capture_output=True)
+        try:
+            os.rmdir(mnt)
+        except OSError:
+            pass
+
+
 def run_case(ctx, g):
     import time
     t0 = time.time()
     ctx.seed = g.get("seed", ctx.seed)
     try:
-        config_case(ctx, g, g["kind"])
+        if g["kind"] == "diskfull":
+            diskfull_case(ctx, g)
+        else:
+            config_case(ctx, g, g["kind"])
     finally:
         w = ctx.extra.setdefault("wall_by_kind", {})
         w[g["kind"]] = round(w.get(g["kind"], 0) + time.time() - t0, 2)
